@@ -334,6 +334,9 @@ pub fn run(ctx: &mut Ctx) {
         }
     });
     // hidden state: every ordered pair of operation calls on a fresh thread against the lone call (no model involved)
-    let hist_calls = crate::histpairs::calls_ops(false, &|op| { use crate::optable::Op::*; matches!(op, DAndTime | DToTs | SDate | STime | SToOd | ODate | OTime | OToTs | DRebuild | TRebuild | SRebuild | ORebuild | TToDt | IToTime) });
+    let hist_calls = crate::histpairs::calls_ops(true, &|op| { use crate::optable::Op::*; matches!(op, DAndTime | DToTs | SDate | STime | SToOd | ODate | OTime | OToTs | DRebuild | TRebuild | SRebuild | ORebuild | TToDt | IToTime) });
     crate::histpairs::pairwise(ctx, "C07", "split_combine_rebuild", hist_calls);
+    let hist_calls_full = crate::histpairs::calls_ops(false, &|op| { use crate::optable::Op::*; matches!(op, DAndTime | DToTs | SDate | STime | SToOd | ODate | OTime | OToTs | DRebuild | TRebuild | SRebuild | ORebuild | TToDt | IToTime) });
+    crate::histpairs::pairwise_same_thread(ctx, "C07", "split_combine_rebuild", hist_calls_full);
+    crate::histpairs::pairwise(ctx, "C07", "field_accessors_and_constructors", crate::histpairs::calls_accessors());
 }
